@@ -94,7 +94,11 @@ class Ctx:
               ['-I' + os.path.join(VERIF, 'harness'), '-I' + REPO] + list(flags)
         if sanitize: cmd += ['-g', '-fsanitize=' + sanitize, '-fno-omit-frame-pointer']
         cmd += [src, '-o', exe, '-L' + LIBDIR, '-Wl,-rpath,' + LIBDIR, '-lSimTKsimbody', '-lSimTKmath', '-lSimTKcommon', '-lpthread']
+        # shared lock: never link while bin/build_repo (exclusive lock on the same file) is rewriting the libraries
+        cmd = ['flock', '-s', LIBDIR + '.lock'] + cmd
         rc, out, err = sh(cmd, timeout=timeout)
+        if rc != 0 and ('file too short' in err or 'file truncated' in err or 'cannot find -lSimTK' in err):
+            time.sleep(20); rc, out, err = sh(cmd, timeout=timeout)
         if rc != 0:
             self.log('harness compile failed: %s\n%s' % (src, err[-4000:]))
             return False
